@@ -372,6 +372,7 @@ def random_coord(rng: random.Random, conv: str, name: str, dim: str, n: int, *, 
     c['bounds'] = rng.choice([None, None, 'var', 'coord']) if bounds == 'random' else bounds
     if rng.random() < 0.3:
         c['encoding'] = {'dtype': 'float32'}
+    c['dtype'] = rng.choice(['f8', 'f8', 'i8', 'f4'])
     return c
 
 
